@@ -19,12 +19,36 @@ if TYPE_CHECKING:
 logger = logging.getLogger(__name__)
 
 
+class _InjectedCapacity:
+    """Capacity factors currently injected on one resource.
+
+    Shared by every ``ReduceCapacity`` window on the resource: the configured
+    capacity is remembered when the first window starts, the effective capacity
+    is the configured one times the factors of all active windows, and the
+    configured capacity comes back when the last window ends.
+    """
+
+    __slots__ = ("base", "factors")
+
+    def __init__(self, base: int | float) -> None:
+        self.base = base
+        self.factors: list[tuple[object, float]] = []
+
+    def effective(self) -> int | float:
+        capacity = self.base
+        for _, factor in self.factors:
+            capacity = capacity * factor
+        return capacity
+
+
 @dataclass(frozen=True)
 class ReduceCapacity:
     """Temporarily reduce a resource's capacity.
 
     At ``start``, multiplies the resource's capacity by ``factor``
-    (e.g., 0.5 = halve). At ``end``, restores the original capacity.
+    (e.g., 0.5 = halve). At ``end``, takes the factor back out. Overlapping
+    windows multiply, and the configured capacity returns when the last one
+    ends. Capacity that is already granted stays with its holders.
 
     Attributes:
         resource_name: Name of the resource to degrade.
@@ -42,32 +66,37 @@ class ReduceCapacity:
         resource = ctx.resources[self.resource_name]
         resource_name = self.resource_name
         factor = self.factor
-        original_capacity = resource._capacity
+        token = object()  # identifies this window's factor on the resource
 
         def activate(e: Event) -> None:
-            new_capacity = original_capacity * factor
-            resource._capacity - new_capacity
-            resource._capacity = new_capacity
-            # Clamp available to not exceed new capacity
-            if resource._available > new_capacity:
-                resource._available = new_capacity
+            state = getattr(resource, "_injected_capacity", None)
+            if state is None:
+                state = _InjectedCapacity(resource.capacity)
+                resource._injected_capacity = state
+            state.factors.append((token, factor))
+            # Grants already handed out stay with their holders; set_capacity
+            # keeps available == capacity - held (possibly negative for a while).
+            resource.set_capacity(state.effective())
             logger.info(
                 "[FaultInjection] Reduced '%s' capacity to %.1f (factor=%.2f) at %s",
                 resource_name,
-                new_capacity,
+                resource.capacity,
                 factor,
                 e.time,
             )
 
         def deactivate(e: Event) -> None:
-            capacity_increase = original_capacity - resource._capacity
-            resource._capacity = original_capacity
-            # Restore available by the same amount capacity increased
-            resource._available += capacity_increase
+            state = getattr(resource, "_injected_capacity", None)
+            if state is None:
+                return
+            state.factors = [(t, f) for t, f in state.factors if t is not token]
+            resource.set_capacity(state.effective())
+            if not state.factors:
+                resource._injected_capacity = None
             logger.info(
                 "[FaultInjection] Restored '%s' capacity to %.1f at %s",
                 resource_name,
-                original_capacity,
+                resource.capacity,
                 e.time,
             )
 
